@@ -13,7 +13,7 @@ git -C /repo worktree prune
 git -C /repo worktree add -q --detach "$d/repo" HEAD || exit 2
 case "$patch" in
   -R:*) (cd "$d/repo" && git revert -n "${patch#-R:}" >/dev/null 2>&1) || { echo "revert failed"; git -C /repo worktree remove --force "$d/repo"; exit 2; } ;;
-  *) (cd "$d/repo" && git apply "$patch") || { echo "apply failed"; git -C /repo worktree remove --force "$d/repo"; exit 2; } ;;
+  *) (cd "$d/repo" && (git apply "$patch" 2>/dev/null || git apply -3 "$patch")) || { echo "apply failed"; git -C /repo worktree remove --force "$d/repo"; exit 2; } ;;
 esac
 rc_all=0
 for id in "$@"; do
